@@ -245,6 +245,7 @@ def attribute(d, info, uni):
                 key = (loc['file'], last_seg(split_args(loc['block']['args'])[0]))
                 if key in uni.fn_nopanic:
                     desc['clause'] = {'sidecar': loc['sidecar'], 'text': loc['text']}
+                    desc['aux'] = True      # bookkeeping clause (frame, ghost accounting), not a panic source
                     return uni.fn_nopanic[key], desc
     if cands:
         cands.sort(key=lambda c: c[0])
@@ -387,14 +388,27 @@ STANDINS = {
              'bound': '10 directory spellings x 5 leading-separator prefixes x names of 1..4 segments over an 8-element alphabet x 3 separator modes (702000 cases)'}],
     'C10': [{'name': 'bounded_to_string', 'bin': 'bounded_to_string', 'extract': False,
              'assumed_contract': 'Convert::to_string (external_body): Ok((s,i)) <=> i is the first NUL at/after start and s is the UTF-8 decoding of the bytes in between; no panic for start <= len',
-             'bound': 'all byte strings of length 0..6 over {00,61,C3,A9,FF} x all start offsets (131836 cases)'}],
-    'C11': [{'name': 'bounded_codec', 'bin': 'bounded_codec', 'extract': False,
+             'bound': 'all byte strings of length 0..6 over {00,61,C3,A9,FF} x all start offsets (131836 cases)'},
+            {'name': 'bounded_decoder', 'bin': 'bounded_decoder', 'extract': False, 'args': {'quick': ['C10'], 'thorough': ['C10']},
+             'assumed_contract': 'none assumed: the decoder is under contract; this executes the real Packet::deserialize against an independent RFC decoder (twin of decodes_to) so that '
+                                 'a change that makes the annotations inapplicable still meets a concrete check',
+             'bound': 'all byte strings of length 0..6 over a 12-byte alphabet; all 65536 opcode prefixes x 4 tails; opcode 1/2/6 + all sequences of 0..5 tokens over a 13-token alphabet '
+                      '(option names in two spellings, numbers, NUL, invalid UTF-8, 2^64) - about 4.7 million datagrams; totality, Ok <=> denotes a packet, stability under re-encoding'}],
+    'C11': [{'name': 'bounded_decoder', 'bin': 'bounded_decoder', 'extract': False, 'args': {'quick': ['C11'], 'thorough': ['C11']},
+             'assumed_contract': 'none assumed (see C10): real Packet::deserialize against an independent RFC decoder',
+             'bound': 'as for C10 (about 4.7 million datagrams)'},
+            {'name': 'bounded_codec', 'bin': 'bounded_codec', 'extract': False,
              'assumed_contract': 'serialize_data (external_body, to_be_bytes): bytes == 00 03 hi lo payload; std facts assumed by the round-trip lemma '
                                  '(usize::to_string is decimal digits that parse back; to_lowercase fixes lower-case ASCII; concat; as_bytes)',
              'bound': 'DATA: all 65536 block numbers x 40 payloads of length 0..3 over {00,01,FF} + 600- and 65464-byte payloads; ACK all u16; '
                       'to_string on 0..100000 and 2^k-1,2^k,2^k+1; to_lowercase on all 2-char ASCII strings without upper case; '
                       'RRQ/WRQ/OACK/ERROR from a grammar (10 strings incl. empty, non-ASCII, 517 bytes; 8 option values incl. usize::MAX; '
                       'lists of 0..3 options) against an independent RFC encoder plus round trip (about 2.8 million cases)'}],
+    'C17': [{'name': 'bounded_config', 'bin': 'bounded_config', 'extract': False,
+             'assumed_contract': 'none assumed: Config::new / ClientConfig::new are under contract; this executes them against an executable twin of the fold specification so that a '
+                                 'change that makes the annotations inapplicable (new helper, restructured loop) still meets a concrete check',
+             'bound': 'every argument vector of 0..3 units over 27 server units / 23 client units (all flags, short and long forms, valid, invalid and missing values, existing and missing '
+                      'directories, unknown flag) - about 33 000 vectors; -h/--help left out (ends the process)'}],
     'C14': [{'name': 'bounded_client', 'bin': 'bounded_client', 'extract': False, 'confirm': True, 'args': {'quick': ['quick'], 'thorough': ['full']},
              'assumed_contract': 'interoperation of the bundled client and server (Client::upload / Client::download are outside Verus; two endpoints over UDP are not a function contract): '
                                  'byte-identical files on both sides, download stored under the base name in the receive directory, refusals create no file',
@@ -614,10 +628,23 @@ def decide(pid, uni, ana, known):
     # impossible assumption, so other failures in the same function may be mere consequences of it.  They stay alarms for
     # the properties the panic itself violates; for any other property they are reported as undecided.
     panicking = {}
+    aux_only = set()
     for oid, descs in ana['failed'].items():
         o = uni.oblig.get(oid)
         if o and o['kind'] == 'nopanic':
-            panicking[(o['file'], last_seg(o['fn']))] = set(o['props'])
+            if all(d.get('aux') for d in descs):
+                aux_only.add(oid)       # only untagged bookkeeping clauses failed: no impossible assumption is involved
+            else:
+                panicking[(o['file'], last_seg(o['fn']))] = set(o['props'])
+    # a function whose bookkeeping clauses fail TOGETHER WITH tagged obligations: the tagged ones say which property is
+    # affected; the bookkeeping failure alone would only point at the function's general property
+    for oid in aux_only:
+        o = uni.oblig[oid]
+        key = (o['file'], last_seg(o['fn']))
+        tagged_in_fn = [k for k in ana['failed'] if k != oid and uni.oblig.get(k) and uni.oblig[k]['kind'] != 'nopanic'
+                        and uni.oblig[k]['fn'] and (uni.oblig[k]['file'], last_seg(uni.oblig[k]['fn'])) == key]
+        if tagged_in_fn:
+            failed.pop(oid, None)
     shadowed = {}
     for oid in list(failed):
         o = obl[oid]
@@ -660,7 +687,7 @@ def decide(pid, uni, ana, known):
     return obl, new, known_hit, inconclusive, host_results, undecided_here
 
 
-WITNESS_PROPS = ('C01', 'C02', 'C04', 'C07', 'C08', 'C15', 'C16', 'C03', 'C05', 'C06', 'C09', 'C12')
+WITNESS_PROPS = ('C01', 'C02', 'C04', 'C07', 'C08', 'C15', 'C16', 'C03', 'C05', 'C06', 'C09', 'C12', 'C13')
 LISTENER_PROPS = ('C03', 'C05', 'C06', 'C09', 'C12')
 _witness_cache = {}
 
